@@ -43,10 +43,11 @@ from .lib import CoqFailure, coq_Z, coq_list, coq_nat
 #   residual/conv over 2-D (Nmax 4) and 3-D (Nmax 2, 3) cases: median 0.054, 90% 0.51, max 1.23.
 #   20 x median = 1.1 would still alarm on ~3% of correct cases (heavy tail), so the factor is 5 x the largest ratio seen:
 RES_FACTOR = 6.0
-#   3-D far field |G/G_cont - 1| (|x|/l)^2, l = V^(1/3), at a quarter of the k-mesh period (129 points):
-#   median 0.146, 90% 0.63, max 1.71 (second sample, 126 points: median 0.076, 90% 0.63, max 1.45; the tail is heavy for every
-#   length normalisation tried: V^(1/3), cells, D-metric)  ->  K_CAP = 20 x median of the first sample (= 1.75 x largest seen)
-K_CAP = 3.0
+#   3-D far field K = |G/G_cont - 1| (|x|/l)^2, l = V^(1/3), at a quarter of the k-mesh period along one axis and along a
+#   cell diagonal (4 samples, ~900 points): median 0.08-0.32, 90% 0.6-1.3, max 3.8 -- a heavy tail (max/median 20-40) for every
+#   length normalisation tried (V^(1/3), cells, D-metric): these are genuine O((l/|x|)^2) lattice corrections, not quadrature
+#   error.  20 x median (3-6) would alarm on correct code, so  K_CAP = 2 x the largest value seen:
+K_CAP = 8.0
 #   swap / space-group / scaling pairs (2928 pairs): enforced by construction in __call__ (explicit group average, maxrate
 #   normalisation), independent of the quadrature: median 0, max 8.6e-15 relative to max|G|  ->  100 x max
 PAIR_RTOL = 1e-12
@@ -177,9 +178,10 @@ def far_field(case, g2, rng, D):
     Dinv = np.linalg.inv(D); detD = np.linalg.det(D)
     ell = case.crys.volume ** (1.0 / dim)
     out = []
-    for k in range(dim):
-        m = max(2, int(g2.kptgrid[k]) // 4)
-        R = tuple(m if a == k else 0 for a in range(dim))
+    q = [max(2, int(g2.kptgrid[k]) // 4) for k in range(dim)]
+    Rs = [tuple(q[k] if a == k else 0 for a in range(dim)) for k in range(dim)]
+    Rs += [tuple(rng.choice([-1, 1]) * q[a] for a in range(dim)) for _ in range(2)]
+    for R in Rs:
         i, j = rng.randrange(case.N), rng.randrange(case.N)
         x = case.dx(i, j, R)
         cont = -math.sqrt(case.rho[i] * case.rho[j]) * case.crys.volume / (4 * math.pi * math.sqrt(detD) * math.sqrt(x @ Dinv @ x))
@@ -235,6 +237,25 @@ def run_cases(ck, name, terms, chunk=6):
 
 
 # ------------------------------------------------------------------------------------------
+def lattice_index(case):
+    """index in Z^d of the lattice generated by the closed walks of the jump network (1 = the network joins every cell to
+    every other; > 1 = the infinite network falls apart into interpenetrating copies although the unit-cell graph is connected)."""
+    N, dim = case.N, case.crys.dim
+    off = {0: np.zeros(dim, dtype=int)}; todo = [0]
+    while todo:
+        a = todo.pop()
+        for (b, S, _, _) in case.jumps[a]:
+            if b not in off: off[b] = off[a] + np.array(S); todo.append(b)
+    if len(off) < N: return None          # unit-cell graph itself disconnected (handled by the calculator: Ndiff > 1)
+    cyc = {tuple(int(v) for v in (off[a] + np.array(S) - off[b])) for a in range(N) for (b, S, _, _) in case.jumps[a]}
+    cyc = [c for c in cyc if any(c)]
+    g = 0
+    for rows in itertools.combinations(cyc, dim):
+        g = math.gcd(g, int(round(abs(np.linalg.det(np.array(rows, dtype=float))))))
+        if g == 1: break
+    return g
+
+
 def gen_case(rng, nprng, dim, Nmax, label=None):
     if label == "pyrope":
         crys, chem, cut = pyrope()
@@ -249,7 +270,10 @@ def gen_case(rng, nprng, dim, Nmax, label=None):
         label = lab; cut, sl, jn = net
     bE = nprng.uniform(0, 2, len(sl))
     data = (nprng.uniform(.5, 2, len(sl)).tolist(), bE.tolist(), nprng.uniform(.5, 2, len(jn)).tolist(), (bE.max() + nprng.uniform(.2, 2, len(jn))).tolist())
-    return Case(label, crys, chem, cut, sl, jn, data, Nmax)
+    case = Case(label, crys, chem, cut, sl, jn, data, Nmax)
+    if lattice_index(case) not in (None, 1):
+        return "sublattice"
+    return case
 
 
 def evaluate(case, rng, nrand=6, npairs=8):
@@ -284,13 +308,17 @@ def run(ck):
     plan += [("pyrope", 2)] * ck.n(1, 2)
     terms, meta = [], []
     stats = {"ratio_res_conv": [], "K_far": [], "pair_rel": [], "conv": [], "res": []}
-    skipped = {"no-network": 0}
+    skipped = {"no-network": 0, "sublattice-network": 0}
     nsample = 0
     for spec, Nmax in plan:
         nr = ck.nprng(rng.randrange(1 << 30))
         case = gen_case(rng, nr, 3 if spec == "pyrope" else spec, Nmax, label="pyrope" if spec == "pyrope" else None)
         if case is None:
             skipped["no-network"] += 1; continue
+        if case == "sublattice":
+            # the jump vectors generate only a sublattice: the infinite network is disconnected although the unit-cell graph is
+            # connected; omega(k) is singular at a zone-boundary k and SetRates raises LinAlgError -- outside the calculator's domain
+            skipped["sublattice-network"] += 1; continue
         rep = {"crystal": repr(case.crys), "chem": case.chem, "cutoff": case.cut, "Nmax": Nmax,
                "pre": case.data[0], "bE": case.data[1], "preT": case.data[2], "bET": case.data[3]}
         try:
@@ -373,7 +401,7 @@ def calibrate(seeds=(0, 1, 2, 3)):
         for dim, Nmax in [(2, 4)] * 20 + [(3, 2)] * 8 + [(3, 3)] * 3:
             nr = np.random.default_rng(rng.randrange(1 << 30))
             case = gen_case(rng, nr, dim, Nmax)
-            if case is None: continue
+            if case is None or case == "sublattice": continue
             try: ev = evaluate(case, rng)
             except Exception as e:
                 print("exception", case.label, repr(e)[:80]); continue
